@@ -234,6 +234,10 @@ class ExprMixin:
                 fi = self.repo.func(q)
                 if 'property' in fi.decorators:
                     return self.call_function(q, [v], {}, st, node)
+                if 'staticmethod' in fi.decorators:
+                    return [('val', st, Val('func', None, qual=q))]
+                if 'classmethod' in fi.decorators:
+                    return [('val', st, Val('func', None, qual=q, boundcls=Val('cls', None, name=cls)))]
                 return [('val', st, Val('func', None, qual=q, bound=v))]
             if mem is not None:
                 return [('val', st, lift(mem[1]))]
@@ -270,14 +274,13 @@ class ExprMixin:
                 return [('raise', st, 'AttributeError')]
             return [('val', st, Val('func', None, constmethod=attr, bound=v))]
         if t == 'cls':
-            q = self.repo.resolve_method(v.a['name'], attr)
-            if q is not None:
-                fi = self.repo.func(q)
-                return [('val', st, Val('func', None, qual=q, boundcls=v if 'classmethod' in fi.decorators else None))]
-            try:
-                return [('val', st, lift(self.repo.class_attr(v.a['name'], attr)))]
-            except KeyError:
-                pass
+            mem = self.repo.lookup_member(v.a['name'], attr)
+            if mem is not None and mem[0] == 'func':
+                fi = self.repo.func(mem[1])
+                return [('val', st, Val('func', None, qual=mem[1],
+                                        boundcls=v if 'classmethod' in fi.decorators else None))]
+            if mem is not None:
+                return [('val', st, lift(mem[1]))]
             raise Unsupported('class attribute %s.%s' % (v.a['name'], attr))
         if t == 'slice':
             return [('val', st, v.a[{'start': 'lo', 'stop': 'hi', 'step': 'step'}[attr]] or VNone)]
